@@ -275,6 +275,9 @@ pub fn canon_pair(fam: &str, kmax: i64, rng: &mut Rng) -> (Vec<(Vec<P>, Vec<Vec<
         let (x, y) = gen::lat_pair(rng);
         return if rng.chance(1, 2) { (x, y) } else { (y, x) };
     }
+    if fam == "latraw" {
+        return gen::latraw_pair(rng);
+    }
     loop {
         let f = gen::family(fam, kmax, rng);
         let (a, b) = if fam.ends_with("cxabut") || fam.ends_with("cxsub") {
